@@ -52,18 +52,40 @@ ASSUMPTIONS = [
     "after each of them are exactly the states reachable between the internal syscalls)",
     "library in sequential mode (_num_processes -> 1)",
 ]
-PROBES = ["crash_in_rmtree", "crash_between_trees_and_binning", "crash_after_create_before_write", "crash_in_hdf5_write", "prior_with_trees"]
+PROBES = ["parallel_crash_case", "crash_in_rmtree", "crash_between_trees_and_binning", "crash_after_create_before_write", "crash_in_hdf5_write", "prior_with_trees"]
 REAL_VS_STUB = dict(
     real="all of yaw, numpy tofile, pickle, PyYAML, h5py/HDF5, the kernel file system (tmpfs), real process death",
     stub="fault injection by LD_PRELOAD (crashfs/shim.c); directory listing order (seeded permutation of os.scandir)",
 )
 
 WORKLOADS = ["create", "overwrite", "first_open", "build_trees", "rebuild", "corrfunc_file", "corrdata_files"]
+# the same cache-writing workloads in *parallel* library mode, under the E1 scheduler: the whole
+# simulated process group (main, pool workers, writer process) is killed at scheduler step k
+PAR_WORKLOADS = ["par_create", "par_overwrite", "par_first_open", "par_rebuild"]
 REBUILD_VARIANTS = ["same_nbins", "other_closed", "to_unbinned", "to_binned", "force_equal", "fewer_bins"]
 
 
 def gen_case(prng: Prng, tier: str, i: int) -> dict:
     workload = WORKLOADS[i % len(WORKLOADS)]
+    if i % 7 == 6 and (i // 7) % 2 == 1:
+        workload = PAR_WORKLOADS[(i // 14) % len(PAR_WORKLOADS)]
+    base = workload[4:] if workload.startswith("par_") else workload
+    if workload.startswith("par_"):
+        return dict(
+            prop=PROP,
+            workload=workload,
+            data_seed=prng.below(1 << 30),
+            n_new=prng.randint(12, 30),
+            n_old=prng.randint(10, 24),
+            k=prng.randint(2, 3),
+            chunksize=prng.choice([None, 9]),
+            variant=prng.choice(["same_nbins", "other_closed", "to_unbinned", "fewer_bins"]) if base == "rebuild" else "apply",
+            prior=prng.choice(["plain", "with_trees"]) if base == "overwrite" else None,
+            scandir_seed=0,
+            workers=prng.choice([2, 3]),
+            sched_seed=prng.below(1 << 40),
+            policy=prng.choice(["prng", "prng", "last"]),
+        )
     return dict(
         prop=PROP,
         workload=workload,
@@ -82,7 +104,7 @@ def gen_case(prng: Prng, tier: str, i: int) -> dict:
 
 
 def gen_cases(tier: str, verif_seed: int, runs: int | None = None) -> list[dict]:
-    n = runs if runs is not None else (42 if tier == "quick" else 840)
+    n = runs if runs is not None else (56 if tier == "quick" else 840)
     return [gen_case(Prng(mix(verif_seed, PROP, i)), tier, i) for i in range(n)]
 
 
@@ -158,14 +180,14 @@ def _random_records(case: dict, n: int, chunksize) -> dict:
     return dict(ra=np.rad2deg(data["ra"]), dec=np.rad2deg(data["dec"]), w=data["weights"], z=data["redshifts"], _rad=data)
 
 
-def _make_catalog(path: str, rec: dict, centers: np.ndarray, chunksize=None, overwrite=False, variant="apply", case=None):
+def _make_catalog(path: str, rec: dict, centers: np.ndarray, chunksize=None, overwrite=False, variant="apply", case=None, max_workers=1):
     import yaw
 
     if variant == "divide":
         radec = np.deg2rad(np.column_stack([rec["ra"], rec["dec"]]))
         ids, _ = wl.nearest_center(radec, centers)
         return yaw.Catalog.from_dataframe(
-            path, wl.make_dataframe(rec, ids.astype("i8")), chunksize=chunksize, overwrite=overwrite, max_workers=1,
+            path, wl.make_dataframe(rec, ids.astype("i8")), chunksize=chunksize, overwrite=overwrite, max_workers=max_workers,
             **wl.column_kwargs(rec, patch_name=True),
         )
     if variant == "buffered":
@@ -182,11 +204,11 @@ def _make_catalog(path: str, rec: dict, centers: np.ndarray, chunksize=None, ove
     if variant == "random":
         return yaw.Catalog.from_random(
             path, _random_generator(case), len(rec["ra"]), patch_centers=yaw.AngularCoordinates(centers),
-            chunksize=chunksize, overwrite=overwrite, max_workers=1,
+            chunksize=chunksize, overwrite=overwrite, max_workers=max_workers,
         )
     return yaw.Catalog.from_dataframe(
         path, wl.make_dataframe(rec), patch_centers=yaw.AngularCoordinates(centers),
-        chunksize=chunksize, overwrite=overwrite, max_workers=1, **wl.column_kwargs(rec),
+        chunksize=chunksize, overwrite=overwrite, max_workers=max_workers, **wl.column_kwargs(rec),
     )
 
 
@@ -224,7 +246,9 @@ class Scenario:
         self.root = root
         self.tpl = os.path.join(root, "tpl")
         os.makedirs(self.tpl)
-        w = case["workload"]
+        self.parallel = case["workload"].startswith("par_")
+        self.mw = None if self.parallel else 1
+        w = self.base = case["workload"][4:] if self.parallel else case["workload"]
         seed = case["data_seed"]
         self.new = _records(seed, case["n_new"], EDGES_A)
         self.old = _records(seed + 1, case["n_old"], EDGES_A)
@@ -310,7 +334,7 @@ class Scenario:
     def _rebuild_binnings(self):
         v = self.case.get("variant")
         force = False
-        if self.case["workload"] != "rebuild":
+        if self.base != "rebuild":
             return None, (EDGES_A, "right"), False
         if v == "same_nbins":
             return (EDGES_A, "right"), (EDGES_B, "right"), False
@@ -327,11 +351,11 @@ class Scenario:
         raise ValueError(v)
 
     @staticmethod
-    def _build(cat, binning, force=False):
+    def _build(cat, binning, force=False, max_workers=1):
         if binning is None:
-            cat.build_trees(None, force=force, max_workers=1)
+            cat.build_trees(None, force=force, max_workers=max_workers)
         else:
-            cat.build_trees(binning[0], closed=binning[1], force=force, max_workers=1)
+            cat.build_trees(binning[0], closed=binning[1], force=force, max_workers=max_workers)
 
     def _fresh_tree_state(self, binning) -> dict:
         import yaw
@@ -351,18 +375,21 @@ class Scenario:
     def work(self, workdir: str) -> None:
         import yaw
 
-        case, w = self.case, self.case["workload"]
+        import contextlib
+
+        case, w = self.case, self.base
         target = os.path.join(workdir, "cat")
-        with _seq():
+        mw = self.mw
+        with (contextlib.nullcontext() if self.parallel else _seq()):
             if w == "create":
-                _make_catalog(target, self.new, self.centers, chunksize=case["chunksize"], variant=self.cvariant, case=case)
+                _make_catalog(target, self.new, self.centers, chunksize=case["chunksize"], variant=self.cvariant, case=case, max_workers=mw)
             elif w == "overwrite":
-                _make_catalog(target, self.new, self.centers, chunksize=case["chunksize"], overwrite=True, variant=self.cvariant, case=case)
+                _make_catalog(target, self.new, self.centers, chunksize=case["chunksize"], overwrite=True, variant=self.cvariant, case=case, max_workers=mw)
             elif w == "first_open":
-                yaw.Catalog(target, max_workers=1)
+                yaw.Catalog(target, max_workers=mw)
             elif w in ("build_trees", "rebuild"):
-                cat = yaw.Catalog(target, max_workers=1)
-                self._build(cat, self.binnings["new"], force=self.force)
+                cat = yaw.Catalog(target, max_workers=mw)
+                self._build(cat, self.binnings["new"], force=self.force, max_workers=mw)
             elif w == "corrfunc_file":
                 self.cf_new.to_file(os.path.join(workdir, "out", "cf.hdf"))
             elif w == "corrdata_files":
@@ -372,7 +399,7 @@ class Scenario:
     def next_use(self, workdir: str, which: str = "new") -> dict:
         import yaw
 
-        w = self.case["workload"]
+        w = self.base
         with _seq():
             if w in ("corrfunc_file", "corrdata_files"):
                 try:
@@ -457,7 +484,103 @@ def _op_signature(oplog: list[str], k: int) -> dict:
     return dict(op=name, file=kind, nth=nth)
 
 
+def _run_parallel_case(case: dict) -> dict:
+    """Engine E1: the workload runs in parallel library mode as simulated processes; for every
+    scheduler step k of the fault-free run the whole process group is killed at step k (same
+    schedule), the surviving directory is copied at once (buffers of still-open files are lost
+    with the processes) and a forked child performs the next use on the copy."""
+    from sim import fakemp
+    from sim.core import Sim
+    from sim.isolate import run_isolated
+
+    root = tempfile.mkdtemp(prefix="c08p-", dir=wl.scratch_root())
+    try:
+        try:
+            sc = Scenario(case, root)
+        except Exception as err:  # noqa: BLE001
+            return dict(verdict="discard", detail=f"scenario not buildable: {type(err).__name__}")
+        work = os.path.join(root, "work")
+        snap = os.path.join(root, "snap")
+
+        def simulate(kill_at):
+            shutil.rmtree(work, ignore_errors=True)
+            shutil.copytree(sc.tpl, work)
+            sim = Sim(case.get("sched_seed", 0), policy=case.get("policy", "prng"), fs_root=work,
+                      cores=case.get("workers", 2), step_cap=80_000)
+            if kill_at is not None:
+                sim.faults["kill_all_at"] = kill_at
+            with fakemp.patched(sim):
+                verdict = sim.run(sc.work, work)
+            shutil.rmtree(snap, ignore_errors=True)
+            shutil.copytree(work, snap)  # what survives, before any parked thread is unwound
+            return sim, verdict
+
+        sim, verdict = simulate(None)
+        nsteps = sim.steps
+        log = [ev for ev in sim.log if isinstance(ev[0], int)]
+        ok = verdict == "complete" and sim.main.exc is None
+        sim.cleanup()
+        if not ok:
+            return dict(verdict="discard", detail=f"fault-free parallel workload did not complete ({verdict})")
+        done_hash = _tree_hash(snap)
+        res = run_isolated(lambda: sc.next_use(snap, "new"))
+        if res[0] != "ok" or res[1]["cls"] != "AS_COMPLETED":
+            return dict(verdict="harness_error", error=f"completed parallel workload is not classified AS_COMPLETED: {res}")
+        ks = [case["crash_at"]] if case.get("crash_at") else list(range(1, nsteps))
+        subs, probes, classes = [], {"parallel_crash_case": 1}, {}
+        violation = None
+        for k in ks:
+            sim, verdict = simulate(k)
+            if verdict != "killed_all":
+                sim.cleanup()
+                return dict(verdict="harness_error", error=f"kill-all@{k}/{nsteps}: verdict {verdict}")
+            h = _tree_hash(snap)
+            ev = log[k] if k < len(log) else (k, "?", ("?",))
+            op = ev[2]
+            opsig = dict(task=str(ev[1]).split(".")[0].rstrip("0123456789"), op=str(op[0]),
+                         what=str(op[1]) if len(op) > 1 and op[0] == "fs" else "",
+                         file=os.path.basename(str(op[2])).split("_")[0] if len(op) > 2 and op[0] == "fs" else "")
+            verdicts = []
+            whichs = ["new", "old"] if sc.base == "rebuild" else ["new"]
+            for which in whichs:
+                use_dir = snap
+                if len(whichs) > 1:
+                    use_dir = os.path.join(root, "use")
+                    shutil.rmtree(use_dir, ignore_errors=True)
+                    shutil.copytree(snap, use_dir)
+                r = run_isolated(lambda d=use_dir, wch=which: sc.next_use(d, wch))
+                if r[0] != "ok":
+                    sim.cleanup()
+                    return dict(verdict="harness_error", error=f"next use after kill-all@{k} failed: {r}")
+                verdicts.append((which, r[1]))
+            sim.cleanup()
+            for which, v in verdicts:
+                classes[v["cls"]] = classes.get(v["cls"], 0) + 1
+                if v["cls"] == "SILENT_WRONG" and violation is None:
+                    sig = dict(property=PROP, workload=case["workload"], prior_state=case.get("prior") or case.get("variant") or "-",
+                               op=opsig, next_use=v.get("next_use", "open"), outcome=v.get("outcome", "silent_wrong"))
+                    violation = dict(signature=sig, focus=k, tail=[list(map(str, e)) for e in log[max(0, k - 12): k + 1]],
+                                     detail=f"whole process group killed at scheduler step {k}/{nsteps} (next event would have been {ev}): {v.get('detail')}")
+            subs.append(dict(digest=hashlib.sha256(f"{case['workload']}:{h}".encode()).hexdigest(),
+                             nontrivial=h not in (sc.prior_hash, done_hash), steps=k))
+            if violation is not None:
+                break
+        hh = hashlib.sha256()
+        for s_ in subs:
+            hh.update(s_["digest"].encode())
+        res = dict(verdict="ok" if violation is None else "violation", subs=subs, digest=hh.hexdigest(),
+                   nontrivial=any(s_["nontrivial"] for s_ in subs), steps=sum(s_["steps"] for s_ in subs), probes=probes,
+                   faults=dict(kill_all=len(subs)), head=[list(map(str, e)) for e in log[:25]], classes=classes, nops=nsteps)
+        if violation is not None:
+            res.update(violation)
+        return res
+    finally:
+        shutil.rmtree(root, ignore_errors=True)
+
+
 def run_case(case: dict) -> dict:
+    if case["workload"].startswith("par_"):
+        return _run_parallel_case(case)
     root = tempfile.mkdtemp(prefix="c08-", dir=wl.scratch_root())
     try:
         try:
@@ -517,7 +640,7 @@ def run_case(case: dict) -> dict:
             if opsig["op"] == "pwrite":
                 probes["crash_in_hdf5_write"] = probes.get("crash_in_hdf5_write", 0) + 1
             verdicts = []
-            whichs = ["new", "old"] if case["workload"] == "rebuild" else ["new"]
+            whichs = ["new", "old"] if sc.base == "rebuild" else ["new"]
             for which in whichs:
                 use_dir = work
                 if len(whichs) > 1:
